@@ -52,6 +52,7 @@ type Step struct {
 	Ms      int    `json:"ms,omitempty"`
 	IfRW    bool   `json:"if_rw,omitempty"`    // compare_clone: only when the controller lists the clone RW
 	Opt     bool   `json:"optional,omitempty"` // wait_rw: a timeout is not a failure
+	Env     []string `json:"env,omitempty"`    // replica / clone_replica: extra environment of the process
 }
 
 type Case struct {
@@ -168,10 +169,12 @@ type proc struct {
 	ip      string
 	stopped bool
 	args    []string
+	env     []string
 	starts  int
 }
 
 type world struct {
+	nextEnv []string // environment for the next replica process started
 	work   string
 	bin    string
 	vols   []*volume
@@ -185,6 +188,9 @@ type world struct {
 	blocked []net.Listener
 }
 
+// every probe of a replica's REST endpoint is bounded: a replica that accepts and never answers must not hang a scenario
+var httpc = &http.Client{Timeout: 3 * time.Second}
+
 func repIP(r int) string { return fmt.Sprintf("127.0.1.%d", r+1) }
 
 // startReplica starts a supervised replica process: like a pod, it is restarted when it exits on its own
@@ -194,7 +200,8 @@ func (w *world) startReplica(r int, vol int, extra ...string) error {
 	args := []string{"replica", "--frontendIP", w.vols[vol].ip, "--listen", repIP(r) + ":9502", "--size", strconv.Itoa(size), "--logtofile=false"}
 	args = append(args, extra...)
 	args = append(args, dir)
-	p := &proc{dir: dir, ip: repIP(r), args: args}
+	p := &proc{dir: dir, ip: repIP(r), args: args, env: w.nextEnv}
+	w.nextEnv = nil
 	w.procs[r] = p
 	if err := w.spawn(r, p); err != nil {
 		return err
@@ -228,7 +235,7 @@ func (w *world) startReplica(r int, vol int, extra ...string) error {
 
 func (w *world) spawn(r int, p *proc) error {
 	cmd := exec.Command(w.bin, p.args...)
-	cmd.Env = append(os.Environ(), "REPLICATION_FACTOR="+strconv.Itoa(w.rf))
+	cmd.Env = append(append(os.Environ(), "REPLICATION_FACTOR="+strconv.Itoa(w.rf)), p.env...)
 	logf, _ := os.OpenFile(filepath.Join(w.work, fmt.Sprintf("r%d.log", r)), os.O_CREATE|os.O_APPEND|os.O_WRONLY, 0600)
 	cmd.Stdout = logf
 	cmd.Stderr = logf
@@ -359,11 +366,13 @@ func (w *world) step(s Step) StepOut {
 	o := StepOut{Op: s.Op, Ok: true}
 	switch s.Op {
 	case "replica":
+		w.nextEnv = s.Env
 		if err := w.startReplica(s.R, s.Vol); err != nil {
 			o.Ok, o.Note = false, err.Error()
 		}
 	case "clone_replica":
 		// a replica of volume s.Vol that clones snapshot s.Name of the volume served by controller s.Src
+		w.nextEnv = s.Env
 		if err := w.startReplica(s.R, s.Vol, "--type", "clone", "--cloneIP", w.vols[s.Src].ip, "--snapName", s.Name); err != nil {
 			o.Ok, o.Note = false, err.Error()
 		}
@@ -542,7 +551,7 @@ func (w *world) step(s Step) StepOut {
 		}
 	case "clone_status":
 		// clone status of replica s.R as its REST API reports it
-		resp, err := http.Get("http://" + repIP(s.R) + ":9502/v1/replicas/1")
+		resp, err := httpc.Get("http://" + repIP(s.R) + ":9502/v1/replicas/1")
 		if err != nil {
 			o.Ok, o.Note = false, err.Error()
 			break
@@ -561,7 +570,7 @@ func (w *world) step(s Step) StepOut {
 		v := w.vols[s.Vol]
 		for time.Now().Before(deadline) {
 			status, rmode := "unreachable", ""
-			if resp, err := http.Get("http://" + repIP(s.R) + ":9502/v1/replicas/1"); err == nil {
+			if resp, err := httpc.Get("http://" + repIP(s.R) + ":9502/v1/replicas/1"); err == nil {
 				var body map[string]interface{}
 				json.NewDecoder(resp.Body).Decode(&body)
 				resp.Body.Close()
@@ -582,7 +591,7 @@ func (w *world) step(s Step) StepOut {
 			// order of the two samples: the status was read first, so "completed" can only be missed, not invented
 			if cmode == "RW" && status != "completed" && status != "NA" {
 				// re-read the status once: it may have completed between the two samples
-				if resp, err := http.Get("http://" + repIP(s.R) + ":9502/v1/replicas/1"); err == nil {
+				if resp, err := httpc.Get("http://" + repIP(s.R) + ":9502/v1/replicas/1"); err == nil {
 					var body map[string]interface{}
 					json.NewDecoder(resp.Body).Decode(&body)
 					resp.Body.Close()
@@ -638,6 +647,22 @@ func (w *world) step(s Step) StepOut {
 				bad = append(bad, b)
 			}
 		}
+		// what the clone volume SERVES (a read through its controller, i.e. through the replica process's own
+		// in-memory chain) must be that image too, not only what its directory holds
+		served := []int{}
+		if cv := w.vols[s.Vol]; cv != nil {
+			buf := make([]byte, size)
+			if _, err := cv.c.ReadAt(buf, 0); err != nil {
+				o.Ok, o.Note = false, "read through the clone volume's controller: "+err.Error()
+				break
+			}
+			for b := range want {
+				if int64(binary.LittleEndian.Uint64(buf[b*blk:])) != want[b] {
+					served = append(served, b)
+				}
+			}
+		}
+		bad = append(bad, served...)
 		// revision counter recorded for the snapshot on the source
 		var srcRev int64 = -1
 		if b, err := os.ReadFile(filepath.Join(w.work, fmt.Sprintf("r%d", s.Src), snap+".meta")); err == nil {
@@ -646,18 +671,27 @@ func (w *world) step(s Step) StepOut {
 				srcRev = d.RevisionCounter
 			}
 		}
-		o.Data = map[string]interface{}{"bad_blocks": bad, "clone_rev": img.Rev, "snapshot_rev": srcRev, "clone_chain": img.Chain}
+		o.Data = map[string]interface{}{"bad_blocks": bad, "served_differs": served, "clone_rev": img.Rev, "snapshot_rev": srcRev, "clone_chain": img.Chain}
 		o.Ok = len(bad) == 0 && img.Rev == srcRev
 	case "modes":
 		v := w.vols[s.Vol]
-		v.c.Lock()
+		// the controller lock may be held for as long as a start request polls a clone that never completes
+		locked := false
+		for dl := time.Now().Add(5 * time.Second); time.Now().Before(dl); time.Sleep(20 * time.Millisecond) {
+			if v.c.TryLock() {
+				locked = true
+				break
+			}
+		}
 		m := map[string]string{}
 		for _, r := range v.c.ListReplicas() {
 			m[r.Address] = string(r.Mode)
 		}
 		ro := v.c.ReadOnly
-		v.c.Unlock()
-		o.Data = map[string]interface{}{"modes": m, "readonly": ro}
+		if locked {
+			v.c.Unlock()
+		}
+		o.Data = map[string]interface{}{"modes": m, "readonly": ro, "controller_lock_free": locked}
 	default:
 		o.Ok, o.Note = false, "unknown step"
 	}
